@@ -280,7 +280,7 @@ def _long(args):
     data = b''.join(pkts)
     n = len(data)
     try:
-        ref = deliver(pkts, limit=60)
+        ref = deliver(pkts, limit=15)
     except TooSlow:
         return label, hi - lo, [['timeout', n]]
     ref_obs, ref_key = observable(ref), final_key(ref)
@@ -289,7 +289,7 @@ def _long(args):
         cuts = list(cs) + [n]
         chunks = [data[a:b] for a, b in zip([0] + cuts[:-1], cuts)]
         try:
-            w = deliver(chunks, limit=60)
+            w = deliver(chunks, limit=15)
         except TooSlow:
             bad.append(['timeout'] + cuts)
             break
@@ -340,10 +340,10 @@ def run(ctx):
     for label, pkts, cutsets in long_cases(ctx.quick):
         _LONG[label] = (pkts, cutsets)
         try:
-            check_reference(ctx, label, pkts, observable(deliver(pkts, limit=60)))
+            check_reference(ctx, label, pkts, observable(deliver(pkts, limit=15)))
         except TooSlow:
             ctx.violation({'kind': 'framing', 'signature': 'delivery-does-not-return/%s' % label,
-                           'detail': 'whole-packet delivery of stream %s did not return within 60 s' % label,
+                           'detail': 'whole-packet delivery of stream %s did not return within 15 s' % label,
                            'history': [['stream', label], ['cuts', []]], 'scenario': {'name': 'long', 'stream': label}})
             del _LONG[label]
     ltasks = []
@@ -363,7 +363,7 @@ def run(ctx):
             for cuts in bad[:1]:
                 if cuts and cuts[0] == 'timeout':
                     ctx.violation({'kind': 'framing', 'signature': 'delivery-does-not-return/%s' % label,
-                                   'detail': 'delivery of stream %s cut at %r did not return within 60 s' % (label, cuts[1:7]),
+                                   'detail': 'delivery of stream %s cut at %r did not return within 15 s' % (label, cuts[1:7]),
                                    'history': [['stream', label], ['cuts', cuts[1:41]]], 'scenario': {'name': 'long', 'stream': label}})
                     continue
                 ctx.violation({'kind': 'framing', 'signature': 'long-stream-differs/%s' % label,
